@@ -235,6 +235,15 @@ def world_size(w: Any) -> int:
 
 
 def run(modname: str, tier: str, seed: int, workers: int) -> int:
+    try:
+        return _run(modname, tier, seed, workers)
+    finally:
+        from mc import kineto as _k
+
+        _k.sweep_stale_scratch()     # the workers are gone by now; they cannot clean up after themselves
+
+
+def _run(modname: str, tier: str, seed: int, workers: int) -> int:
     t0 = time.time()
     mod = importlib.import_module(modname)
     pid = mod.ID
@@ -249,7 +258,10 @@ def run(modname: str, tier: str, seed: int, workers: int) -> int:
     chunk_iter = _chunks(gen, chunk)
     exhausted = False
     nsub = 0
-    wall_budget = int(os.environ.get("VERIF_MAX_WALL", "1500" if tier == "quick" else "14400"))
+    from mc import kineto as _kineto
+
+    _kineto.sweep_stale_scratch()
+    wall_budget = int(os.environ.get("VERIF_MAX_WALL", "1500" if tier == "quick" else "28800"))
     over_budget = False
     redo: List[Any] = []          # worlds whose worker process died (pool broken): re-run one per subprocess
     pool_breaks = 0
